@@ -255,6 +255,25 @@ theorem parse_iterate_assign_has_lhs (env : Env) (pe : P Node) (hpe : Post pe Wf
   exact ⟨this.2.1.1.2, this.2.2, this.2.1.2, this.2.1.1.1⟩
 
 open WuffsVerif.Parse in
+/-- **parse_postfix_chain_bounded.**  The chain of calls, indexes, slices and selectors that
+`parseOperand` hangs on an identifier — built by a loop, so not covered by the recursion
+guards, and as deep a left spine as it is long — has at most `MaxExprDepth + 1` = 256 links,
+whatever the input (the model-level statement of the repair
+fixes/C11-parse-postfix-chain-depth.patch: a few MB of `.x.x.x…` overflowed the stack in the
+recursive passes over the expression). -/
+theorem parse_postfix_chain_bounded (env : Env) (pe : P Node) (id : Nat) :
+    Post (operandAll env pe (newExpr 0 0 id .nil .nil .nil []))
+      (fun n => spine n ≤ MaxExprDepth + 1) := by
+  have h := post_operandAll_spine env pe (newExpr 0 0 id .nil .nil .nil [])
+  exact post_mono h (fun n hn => by
+    simpa [spine, newExpr, KExpr, IDOpenParen, IDOpenBracket, IDDotDot, IDDot] using hn)
+
+open WuffsVerif.Parse in
+/-- non-vacuity: `spine` counts the links of `a.b[c]`. -/
+example : spine (newExpr 0 IDOpenBracket 0 (newExpr 0 IDDot 1025 (newExpr 0 0 1024 .nil .nil .nil [])
+    .nil .nil []) .nil (newExpr 0 0 1026 .nil .nil .nil []) []) = 2 := by decide
+
+open WuffsVerif.Parse in
 /-- non-vacuity of `wf`: it does reject the tree the unrepaired parser built for
 `iterate (x)(length: 1, advance: 1, unroll: 1) {}` (an `iterate` whose assignment has no
 left-hand side) … -/
